@@ -133,7 +133,7 @@ package pruner
 //@ func rebuildRunningEventFilter
 //@   trusted
 //@ func InitializeRunningEventFilter
-//@   props C16
+//@   props C16, C09
 //@   arith int
 //@   nosafe
 //@   requires database != nil
@@ -144,4 +144,7 @@ package pruner
 //@   callsite GetRunningEventFilter@*: through_the_snapshot: calls_NewSnapshot == old(calls_NewSnapshot) + 1 && $0 == snapTaken
 //@   callsite fillRunningEventFilter@*: through_the_snapshot: $0 == snapTaken
 //@   callsite rebuildRunningEventFilter@*: through_the_snapshot: $0 == snapTaken
+// The stored filter is resumed only if it is not ahead of the chain (a snapshot that names a
+// next block beyond head+1 was written before blocks were reverted: it is rebuilt, not trimmed).
+//@   callsite NewRunningEventFilterHot@*: stored_filter_only_if_not_ahead: $1 == inner ==> next <= latest + 1 || next == floor
 //@   ensures one_snapshot: calls_NewSnapshot == old(calls_NewSnapshot) + 1
